@@ -59,7 +59,8 @@ def run_box(ck, res, n_cases, goals, n_interval, torch, C, diff, r, dist):
                 break
         if len(goals) < n_interval and not unit:
             x, y = rows[-1]
-            goals.append(enga.interval_goal(f'BVP2D#{ci}', term, {'x': x, 'y': y}, pv, {'G': Gp, 'N': nets[0]}, u[-1], scale))
+            goals.append(enga.interval_goal(f'BVP2D#{ci}', term, {'x': x, 'y': y}, pv, {'G': Gp, 'N': nets[0]}, u[-1], scale,
+                                            gen=('Gen_C02', tname, 'term'), names=res[tname]['names']))
 
 
 def run_ibvp(ck, res, n_cases, goals, n_interval, torch, C, diff, r, dist):
@@ -126,7 +127,8 @@ def run_ibvp(ck, res, n_cases, goals, n_interval, torch, C, diff, r, dist):
                 ck.broke('correspondence-broken', f'pyfront:{tname}', f'row {i}: model ({mv!r},{md!r}) impl ({u[i]!r},{d[i]!r}) input {inp}')
                 break
         if len(goals) < n_interval and not unit:
-            goals.append(enga.interval_goal(f'{tname}#{ci}', term, envs[-1], pv, {'G': Gp, 'N': pr}, u[-1], scale))
+            goals.append(enga.interval_goal(f'{tname}#{ci}', term, envs[-1], pv, {'G': Gp, 'N': pr}, u[-1], scale,
+                                            gen=('Gen_C02', tname, 'term'), names=res[tname]['names']))
 
 
 def _tfac(torch, f, t):
